@@ -55,6 +55,10 @@ claimed={
    text="Two-state relational check of the real dirHash: transcripts of what is hashed are equal iff the sets of (name,size,mtime) of compilable non-underscore regular files are equal, for arbitrary pairs of directory states within the bound; os.ReadDir/sha256/Module.IsClass are stubbed symbolically and the stubs are cross-validated against real directories natively.",
    note="Trusted: gosym engine, z3, collision-freeness of SHA-256, the listing model. Bounded: K entries, L bytes, value ranges.",
    technique="relational (two-run) symbolic execution over go/ssa with SMT (z3); native replay on real directories"),
+ "C26": dict(level="model_checking", ref="6 (C26)",
+   text="The real writeFileWithBackup is executed symbolically over a file-system model with a symbolic crash point, a symbolic failing call and symbolic original mode; the modelled directory must hold the complete original or complete new content at every crash point and error return, and the new content with the original mode after success. Counter-examples and sampled paths are replayed on the real file system under strace kill / error injection.",
+   note="Trusted: gosym engine, z3, the file-system model (atomic POSIX rename, CreateTemp mode 0600). Complete for the call sequence of the working tree; one fault per run.",
+   technique="symbolic execution of go/ssa over a file-system model with symbolic crash/fault points, SMT (z3); native replay with strace fault injection"),
 }
 na_default="check not built yet (work in progress)"
 na={}
